@@ -57,10 +57,9 @@ def _apply_bg_color(element: ContentElement, bg_color: ColorType):
       _apply_bg_color(child, bg_color)
 
 def _safe_area_decoder(s: Number) -> int:
-  safe_area = int(s)
-  if safe_area < 0 or safe_area > 30:
+  if isinstance(s, bool) or not isinstance(s, int) or s < 0 or s > 30:
     raise ValueError("Safe area must be an integer between 0 and 30")
-  return safe_area
+  return s
 
 def _color_decoder(s: typing.Optional[ColorType]) -> typing.Optional[ColorType]:
   if s is None:
